@@ -1,6 +1,7 @@
 package props
 
 import (
+	"math/rand"
 	"fmt"
 
 	"verifharness/adapt"
@@ -129,8 +130,111 @@ func (p *c13) NumCases(tier string) int {
 	n := (len(c13Pairs)+c13Block-1)/c13Block + 2 + 2 + 2 + c13ConfBlocks()
 	if tier == "thorough" {
 		n += 2000
+	} else {
+		n += 2 // quick: two seeded cases, which also hold the multi-table batch rule
 	}
 	return n
+}
+
+// batchKeys (R1d): keys written through ONE BatchWriteItem that spans 2-4 tables - every item is stored in the
+// table its request names, under the key its request carries: afterwards each table holds exactly its own items,
+// each retrievable under its own key, and a batch of deletes removes exactly the addressed items. Repeated with
+// fresh clients because the order in which a call visits its tables differs from call to call.
+func (p *c13) batchKeys(x *res, adapter string, r *rand.Rand, ctx *runner.Ctx) {
+	for round := 0; round < 40; round++ {
+		nt := 2 + r.Intn(3)
+		specs := []adapt.TableSpec{}
+		for i := 0; i < nt; i++ {
+			sp := c13Schemas[0].spec()
+			if i%2 == 1 {
+				sp = c13Schemas[2].spec() // N/S
+			}
+			sp.Name = fmt.Sprintf("tb%c13", 'a'+i)
+			specs = append(specs, sp)
+		}
+		cl, _, ds := freshClient(adapter, specs...)
+		if ds != nil {
+			return
+		}
+		want := map[string][]val.Item{}
+		batch := []adapt.BatchEntry{}
+		per := 1 + r.Intn(3)
+		for i, sp := range specs {
+			for j := 0; j < per; j++ {
+				var it val.Item
+				if sp.HashT == "N" {
+					it = mon.KeyFor(sp, fmt.Sprint(1+j), mon.Pick(r, c13Pool[:6]))
+				} else {
+					it = mon.KeyFor(sp, mon.Pick(r, c13Pool), fmt.Sprint("r", j))
+				}
+				it["payload"] = val.Str(fmt.Sprintf("t%d-%d", i, j))
+				dup := false
+				for _, w := range want[sp.Name] {
+					if mon.KeyFor(sp, "", "").Canon() != "" && keyOnly(sp, w).Canon() == keyOnly(sp, it).Canon() {
+						dup = true
+					}
+				}
+				if dup {
+					continue
+				}
+				want[sp.Name] = append(want[sp.Name], it)
+				batch = append(batch, adapt.BatchEntry{Table: sp.Name, Put: it})
+			}
+		}
+		r.Shuffle(len(batch), func(i, j int) { batch[i], batch[j] = batch[j], batch[i] })
+		got := cl.Do(adapt.Op{Kind: adapt.OpBatchWrite, Batch: batch})
+		x.r.Evals++
+		x.r.Counters["multi_table_batches"]++
+		x.fp(true, "batchkeys|%s|%d|%d", adapter, nt, per)
+		wit := map[string]interface{}{"adapter": adapter, "tables": nt, "batch": batch, "outcome": got}
+		if got.Class != adapt.ClsOK {
+			x.viol("valid-batch-rejected", "multi-table", fmt.Sprintf("[%s] BatchWriteItem over %d tables failed: %s %s", adapter, nt, got.Class, got.Msg), wit)
+			return
+		}
+		check := func(phase string) bool {
+			for _, sp := range specs {
+				sc := cl.Do(adapt.Op{Kind: adapt.OpScan, Table: sp.Name})
+				x.r.Evals++
+				if adapt.ItemsSetCanon(sc.Items) != adapt.ItemsSetCanon(want[sp.Name]) {
+					x.viol("batch-item-under-wrong-key", "multi-table/"+phase, fmt.Sprintf("[%s] %s a BatchWriteItem over %d tables, table %s holds %s; its requests were %s", adapter, phase, nt, sp.Name, adapt.ItemsSetCanon(sc.Items), adapt.ItemsSetCanon(want[sp.Name])), wit)
+					return false
+				}
+				for _, it := range want[sp.Name] {
+					g := cl.Do(adapt.Op{Kind: adapt.OpGet, Table: sp.Name, Key: keyOnly(sp, it)})
+					x.r.Evals++
+					if !val.ItemsEqual(g.Item, it) {
+						x.viol("batch-item-under-wrong-key", "multi-table/"+phase, fmt.Sprintf("[%s] %s a BatchWriteItem over %d tables, GetItem(%s, %s) = %s, written %s", adapter, phase, nt, sp.Name, keyOnly(sp, it).Canon(), g.Item.Canon(), it.Canon()), wit)
+						return false
+					}
+				}
+			}
+			return true
+		}
+		if !check("after") {
+			return
+		}
+		// delete the first item of every table in one batch
+		del := []adapt.BatchEntry{}
+		for _, sp := range specs {
+			if len(want[sp.Name]) > 0 {
+				del = append(del, adapt.BatchEntry{Table: sp.Name, Del: keyOnly(sp, want[sp.Name][0])})
+				want[sp.Name] = want[sp.Name][1:]
+			}
+		}
+		if d := cl.Do(adapt.Op{Kind: adapt.OpBatchWrite, Batch: del}); d.Class == adapt.ClsOK {
+			if !check("after the deletes of") {
+				return
+			}
+		}
+	}
+}
+
+func keyOnly(sp adapt.TableSpec, it val.Item) val.Item {
+	k := val.Item{sp.Hash: it[sp.Hash]}
+	if sp.Range != "" {
+		k[sp.Range] = it[sp.Range]
+	}
+	return k
 }
 
 func c13ConfBlocks() int { return (len(mon.ConfusablePairs()) + c13Block/2 - 1) / (c13Block / 2) }
@@ -238,6 +342,7 @@ func (p *c13) RunCase(ctx *runner.Ctx) runner.CaseResult {
 			}
 			return string(b)
 		}
+		p.batchKeys(x, adapt.Adapters[idx%2], r, ctx)
 		for k := 0; k < 50; k++ {
 			spec := c13Schemas[0].spec()
 			if k%5 == 4 {
